@@ -140,7 +140,7 @@ func runC18(w *World, tr *Trace) {
 			switch x := r.Intn(14); {
 			case x >= 12:
 				mut = append(mut, Op{K: "compact", T: int64(r.Intn(2))})
-			case x < pa && r.Intn(5) == 0:
+			case x < pa && r.Intn(3) == 0:
 				// two slots touched for the first time by two goroutines at once, as the workers of a parallel batch insert do
 				mut = append(mut, Op{K: "palloc", KK: 1 + r.Intn(29)})
 			case x < pa:
